@@ -5,6 +5,8 @@ from checks import lach_common as lc
 def run(c):
     ex = lc.run_exhaustive(c, c.pick(["x11_7"], ["x11_8_full", "x21_8_full", "x211_8"]), "reference")
     c.guard("model_dags_with_blocks", ex["total"]["dags_with_blocks"])
+    cor = lc.run_exhaustive(c, ["corpus:ties"], "reference", orders=4)
+    c.guard("corpus_spec_ties", cor["total"].get("spec_ties", 0))
     res = lc.run_profile(c, "c10", c.pick(14, 150), "reference")
     st = res["stats"]
     c.guard("blocks", st.get("blocks", 0))
@@ -13,4 +15,4 @@ def run(c):
     c.guard("spec_atropos_not_first", st.get("spec_atropos_not_first", 0))
     return lc.finish(c, res, "seeded random DAGs with equal-weight even validator sets (ties), lagging validators (no-quorum decisions, "
                      "deep rounds) and forks < 1/3; every accepted frame and every emitted block compared with the reference",
-                     extra=dict(exhaustive_part=ex["total"], model_samples=ex["samples"]))
+                     extra=dict(exhaustive_part=ex["total"], model_samples=ex["samples"], tie_corpus=cor["total"]))
